@@ -1,4 +1,5 @@
-(* FixPartProofs.v — C13: the patch never touches the document type declaration. *)
+(* FixPartProofs.v — C13/C05: the patch load() applies to every XML member touches the start tag of the root element only:
+   not the document type declaration in front of it, not the content behind it. *)
 From Coq Require Import ZArith Lia.
 From Odf Require Import model.Base model.Chars model.XmlLex model.FixPart.
 
@@ -19,25 +20,111 @@ Qed.
 Lemma insert_length (s x : str) pos : List.length (insert_at s pos x) = (List.length s + List.length x)%nat.
 Proof. unfold insert_at. rewrite !app_length. rewrite <- (firstn_skipn pos s) at 3. rewrite app_length. lia. Qed.
 
-Lemma fix_one_prefix orig start result p : (start <= List.length result)%nat ->
-  firstn start (fix_one orig start result p) = firstn start result /\ (List.length result <= List.length (fix_one orig start result p))%nat.
+Lemma strip_prefix_len : forall p s r, strip_prefix p s = Some r -> (List.length p <= List.length s)%nat.
 Proof.
-  intros Hl. unfold fix_one. destruct (declared _ _); [split; [reflexivity|lia]|].
-  destruct (find_ws_then sXMLNS (skipn start result) start) as [pos|] eqn:E; [|split; [reflexivity|lia]].
-  apply find_ws_then_ge in E. rewrite skipn_length in E. split; [apply firstn_insert; lia|rewrite insert_length; lia].
+  induction p as [|a p IH]; intros s r H; cbn [List.length]; [lia|].
+  destruct s as [|b s]; cbn [strip_prefix] in H; [discriminate|]. destruct (a =? b); [|discriminate].
+  apply IH in H. cbn [List.length]. lia.
+Qed.
+Lemma find_from_bound needle : forall s i j, find_from needle s i = Some j -> (i <= j /\ j + List.length needle <= i + List.length s)%nat.
+Proof.
+  induction s as [|c r IH]; intros i j H; cbn [find_from] in H.
+  - destruct needle; [injection H as <-; cbn [List.length]; lia|discriminate].
+  - destruct (strip_prefix needle (c :: r)) eqn:E.
+    + injection H as <-. apply strip_prefix_len in E. lia.
+    + apply IH in H. cbn [List.length]. lia.
+Qed.
+Lemma starts_len p s : starts p s = true -> (List.length p <= List.length s)%nat.
+Proof. unfold starts. destruct (strip_prefix p s) eqn:E; [intros _; eapply strip_prefix_len; exact E|discriminate]. Qed.
+
+(* the root element begins behind the document type declaration *)
+Lemma misc_ge : forall fuel s i total, (i + List.length s = total)%nat -> (i <= misc fuel s i total)%nat.
+Proof.
+  induction fuel as [|f IH]; intros s i total H; cbn [misc]; [lia|].
+  destruct s as [|c r]; [lia|].
+  destruct (starts sPI (c :: r)).
+  { destruct (find_from sPIEND (c :: r) 0) as [j|] eqn:E; [|lia]. apply find_from_bound in E. change (List.length sPIEND) with 2%nat in E.
+    etransitivity; [|apply IH]; [lia|]. rewrite skipn_length. lia. }
+  destruct (starts sCOM (c :: r)) eqn:Ec.
+  { apply starts_len in Ec. change (List.length sCOM) with 4%nat in Ec.
+    destruct (find_from sCOMEND (skipn 4 (c :: r)) 4) as [j|] eqn:E; [|lia]. apply find_from_bound in E. change (List.length sCOMEND) with 3%nat in E.
+    rewrite skipn_length in E. etransitivity; [|apply IH]; [lia|]. rewrite skipn_length. lia. }
+  destruct (is_prolog_ws c); [|lia]. etransitivity; [|apply IH]; [lia|]. cbn [List.length] in H. lia.
+Qed.
+Lemma root_begin_ge s : (root_start s <= root_begin s)%nat.
+Proof.
+  unfold root_begin. pose proof (root_start_le s) as Hl. apply Nat.min_glb; [|exact Hl].
+  apply misc_ge. rewrite skipn_length. lia.
+Qed.
+Lemma root_begin_le s : (root_begin s <= List.length s)%nat.
+Proof. unfold root_begin. apply Nat.le_min_r. Qed.
+Lemma tag_end_bounds : forall s i q, (i <= tag_end s i q <= i + List.length s)%nat.
+Proof.
+  induction s as [|c r IH]; intros i q; cbn [tag_end List.length]; [lia|].
+  destruct q as [q|].
+  - specialize (IH (S i) (if c =? q then None else Some q)). lia.
+  - destruct ((c =? 34) || (c =? 39)); [specialize (IH (S i) (Some c)); lia|].
+    destruct (c =? 62); [lia|]. specialize (IH (S i) None). lia.
+Qed.
+Lemma root_stop_bounds s : (root_begin s <= root_stop s <= List.length s)%nat.
+Proof.
+  unfold root_stop. pose proof (tag_end_bounds (skipn (root_begin s) s) (root_begin s) None) as H.
+  rewrite skipn_length in H. pose proof (root_begin_le s). lia.
 Qed.
 
-Lemma fold_prefix orig start ps : forall result, (start <= List.length result)%nat ->
-  firstn start (fold_left (fix_one orig start) ps result) = firstn start result.
+(* inserting inside the middle of a text in three pieces *)
+Lemma insert_middle (a mid c x : str) pos : (List.length a <= pos)%nat -> (pos <= List.length a + List.length mid)%nat ->
+  insert_at (a ++ mid ++ c) pos x = a ++ insert_at mid (pos - List.length a) x ++ c.
 Proof.
-  induction ps as [|p r IH]; intros result Hl; [reflexivity|]. cbn [fold_left].
-  destruct (fix_one_prefix orig start result p Hl) as [A B]. rewrite IH by lia. exact A.
+  intros H1 H2. unfold insert_at.
+  rewrite firstn_app, skipn_app. rewrite (firstn_all2 a) by lia. rewrite (skipn_all2 a) by lia. cbn [app].
+  rewrite firstn_app, skipn_app. replace (pos - List.length a - List.length mid)%nat with 0%nat by lia.
+  cbn [firstn skipn]. rewrite app_nil_r. rewrite <- !app_assoc. reflexivity.
 Qed.
 
-(* whatever the part holds: everything up to the end of its document type declaration (root_start) reaches the parser as it is
-   in the package - every entity declaration, every external identifier *)
+(* one step keeps the text in front of the root element and the text from the end of its start tag on *)
+Lemma fix_one_frame orig start begin stop p a mid c : orig = a ++ skipn begin (firstn stop orig) ++ c ->
+  List.length a = begin -> (begin <= stop <= List.length orig)%nat -> c = skipn stop orig ->
+  exists mid', fix_one orig start begin stop (a ++ mid ++ c) p = a ++ mid' ++ c /\ (List.length mid <= List.length mid')%nat.
+Proof.
+  intros Ho Ha Hb Hc. unfold fix_one. destruct (declared _ _); [exists mid; split; [reflexivity|lia]|].
+  match goal with |- context [find_ws_then ?n ?l ?i] => destruct (find_ws_then n l i) as [pos|] eqn:E end; [|exists mid; split; [reflexivity|lia]].
+  apply find_ws_then_ge in E. rewrite firstn_length, skipn_length in E. rewrite !app_length in E.
+  assert (Lc : List.length c = (List.length orig - stop)%nat) by (subst c; apply skipn_length).
+  exists (insert_at mid (pos - List.length a) (decl p)). split; [apply insert_middle; lia|rewrite insert_length; lia].
+Qed.
+
+Lemma fold_frame orig start begin stop a c : orig = a ++ skipn begin (firstn stop orig) ++ c ->
+  List.length a = begin -> (begin <= stop <= List.length orig)%nat -> c = skipn stop orig ->
+  forall ps mid, exists mid', fold_left (fix_one orig start begin stop) ps (a ++ mid ++ c) = a ++ mid' ++ c.
+Proof.
+  intros Ho Ha Hb Hc. induction ps as [|p r IH]; intros mid; [exists mid; reflexivity|]. cbn [fold_left].
+  destruct (fix_one_frame orig start begin stop p a mid c Ho Ha Hb Hc) as [m1 [E _]]. rewrite E. apply IH.
+Qed.
+
+Lemma three_pieces (s : str) b e : (b <= e <= List.length s)%nat -> s = firstn b s ++ skipn b (firstn e s) ++ skipn e s.
+Proof.
+  intros H. rewrite <- (firstn_skipn e s) at 1. rewrite <- (firstn_skipn b (firstn e s)) at 1.
+  rewrite firstn_firstn, Nat.min_l by lia. rewrite <- app_assoc. reflexivity.
+Qed.
+
+(* whatever the part holds: only the start tag of the root element is patched.  Everything in front of it - the prolog, the
+   document type declaration with every entity declaration and external identifier - and everything from the '>' that ends it
+   on - every other tag, every character of text - reaches the parser as it is in the package *)
+Theorem only_root_tag_patched s : exists mid, fix_part s = firstn (root_begin s) s ++ mid ++ skipn (root_stop s) s.
+Proof.
+  pose proof (root_stop_bounds s) as Hb. pose proof (three_pieces s _ _ Hb) as Hs.
+  assert (Hl : List.length (firstn (root_begin s) s) = root_begin s) by (rewrite firstn_length; apply Nat.min_l; apply root_begin_le).
+  destruct (fold_frame s (root_start s) (root_begin s) (root_stop s) _ _ Hs Hl Hb eq_refl prefixes (skipn (root_begin s) (firstn (root_stop s) s))) as [mid E].
+  exists mid. unfold fix_part. rewrite <- E. f_equal. exact Hs.
+Qed.
+
 Theorem dtd_untouched s : firstn (root_start s) (fix_part s) = firstn (root_start s) s.
-Proof. unfold fix_part. apply fold_prefix. apply root_start_le. Qed.
+Proof.
+  destruct (only_root_tag_patched s) as [mid E]. rewrite E. pose proof (root_begin_ge s) as H. pose proof (root_begin_le s) as Hl.
+  rewrite firstn_app. rewrite firstn_length, (Nat.min_l _ _ Hl). replace (root_start s - root_begin s)%nat with 0%nat by lia.
+  cbn [firstn]. rewrite app_nil_r, firstn_firstn. f_equal. lia.
+Qed.
 
 Theorem fix_part_shape s : exists tail, fix_part s = firstn (root_start s) s ++ tail.
 Proof. exists (skipn (root_start s) (fix_part s)). rewrite <- (dtd_untouched s). symmetry. apply firstn_skipn. Qed.
@@ -52,4 +139,14 @@ Example root_start_examples :
   firstn (root_start ex1) (fix_part ex1) = firstn (root_start ex1) ex1 /\
   declared (s2l "meta") (skipn (root_start ex1) (fix_part ex1)) = true /\
   declared (s2l "o") (10 :: s2l "xmlns:o  = 'u'") = true /\ declared (s2l "o") (s2l "xxmlns:o='u'") = false.
+Proof. vm_compute. repeat split. Qed.
+
+(* the root's start tag: behind a comment that reads like a declaration, ended by the first '>' outside a value; a root
+   without any prefix declaration is left alone, whatever its text says *)
+Definition ex3 := s2l "<?xml version='1.0'?><!-- a xmlns:b --><r xmlns:o='a>b' x=""'>"">t xmlns:q</r>".
+Definition ex4 := s2l "<r xmlns='u'><p> xmlns:foo and more</p></r>".
+Example root_tag_examples :
+  skipn (root_begin ex3) (firstn (S (root_stop ex3)) ex3) = s2l "<r xmlns:o='a>b' x=""'>"">" /\
+  fix_part ex4 = ex4 /\ skipn (root_stop ex3 + (List.length (fix_part ex3) - List.length ex3)) (fix_part ex3) = s2l ">t xmlns:q</r>" /\
+  declared (s2l "form") (fix_part ex3) = true.
 Proof. vm_compute. repeat split. Qed.
